@@ -248,17 +248,34 @@ type window struct{ now, t0, t1 int64 }
 func mkDelay(kind string, base int64) (delay.Delay, window) {
 	t0 := time.Now().UnixNano()
 	var d delay.Delay
-	n, _ := strconv.ParseInt(kind[1:], 10, 64)
+	n, zone := offZone(kind)
 	switch kind[0] {
 	case 'f', 'o':
 		d = delay.For(time.Duration(n))
 	case 'u':
-		d = delay.Until(time.Unix(0, base+n))
+		// the time.Time handed to Until carries a location: UTC, or a zone `zone` seconds east of UTC (what time.Now()
+		// gives in a non-UTC process, a parsed "…+02:00", t.In(loc))
+		t := time.Unix(0, base+n).UTC()
+		if zone != 0 {
+			t = t.In(time.FixedZone("", int(zone)))
+		}
+		d = delay.Until(t)
 	case 'z':
 		d = delay.Delay{}
 	}
 	t1 := time.Now().UnixNano()
 	return d, window{t0, t0, t1}
+}
+
+// offZone parses the number of a delay spec: <kind letter><n> or <kind letter><n>z<zone seconds>.
+func offZone(kind string) (int64, int64) {
+	p := strings.SplitN(kind[1:], "z", 2)
+	n, _ := strconv.ParseInt(p[0], 10, 64)
+	var z int64
+	if len(p) == 2 {
+		z, _ = strconv.ParseInt(p[1], 10, 64)
+	}
+	return n, z
 }
 
 // inferNow: the clock value `now` that For/Until must have read, computed from what was stamped.
@@ -267,7 +284,7 @@ func inferNow(kind string, base int64, tok string, w window) window {
 	if len(p) < 3 || len(kind) < 2 {
 		return w
 	}
-	n, _ := strconv.ParseInt(kind[1:], 10, 64)
+	n, _ := offZone(kind)
 	cand := w.now
 	switch kind[0] {
 	case 'f', 'o':
